@@ -855,3 +855,132 @@ def check_c20(pid, replay=None):
 
 
 REGISTRY["C20"] = check_c20
+
+
+# ---------------------------------------------------------------------------------------------- C02 / C03 rules, C20 version
+
+RULE_MODS = ["FlowDesc.tla", "RuleXlate.tla"]
+
+
+def rules_vectors(kinds, thorough, rng):
+    import gen_rules
+    structs, states = [], 0
+
+    def one(k):
+        cfg = 'SPECIFICATION Spec\nCONSTANTS\n K = "%s"\nINVARIANT OrderFree\nINVARIANT RefSane\nCHECK_DEADLOCK FALSE\n' % k
+        return vlib.tlc_vectors("MC_Rules.tla", "MC.cfg", RULE_MODS, "rules-" + k, cfg_text=cfg, workers=4)
+    with cf.ThreadPoolExecutor(len(kinds)) as ex:
+        for vs, st in ex.map(one, kinds):
+            structs += vs
+            states += st["distinct"]
+    vecs = []
+    reps = 4 if thorough else 1
+    for i, s in enumerate(structs):
+        for j in range(reps + (1 if s["kind"] in ("bar", "far", "qer") else 0)):
+            order = ["keep", "rev", "shuffle", "shuffle", "shuffle"][(i + j) % 5]
+            vecs.append(gen_rules.vector("mc-%s-%d-%d" % (s["kind"], i, j), s, rng, order))
+    return vecs, states, len(structs)
+
+
+def run_rules(pid, vecs, name):
+    binary = vlib.build_test_binary("internal/forwarder")
+    nproc = max(1, min(8, len(vecs) // 500 + 1))
+    chunks = [vecs[i::nproc] for i in range(nproc)]
+
+    def work(i):
+        fout, info = vlib.run_l0(binary, "TestVerifRules", chunks[i], "%s-%d" % (name, i))
+        outs = vlib.read_ndjson(fout)
+        died = None
+        if info["rc"] != 0:
+            if "INFRA:" in info["tail"]:
+                raise Infra("rules executor: " + info["tail"][-1500:])
+            died = chunks[i][len(outs)] if len(outs) < len(chunks[i]) else chunks[i][-1]
+        return outs, died, info
+    outs, viols = [], []
+    with cf.ThreadPoolExecutor(nproc) as ex:
+        for o, died, info in ex.map(work, range(nproc)):
+            outs += o
+            if died is not None:
+                k = died["meta"].get("st", {}).get("kind", "")
+                tagp = "C02" if k in ("pdr", "far") else "C03"
+                viols.append({"tr": died["id"], "i": 0, "tags": ["%s:the driver process died on a well-formed IE: %s" % (tagp, info["tail"][-300:])], "line": died})
+    viols += judge_l0(pid, outs, "Trace_Rules", RULE_MODS, name)
+    return outs, viols
+
+
+def check_rules(pid, replay=None):
+    import random
+    import gen_rules
+    t0 = time.time()
+    thorough = vlib.tier() == "thorough"
+    kinds = ["pdr", "far"] if pid == "C02" else ["qer", "urr", "bar"]
+    if replay:
+        with open(replay) as fh:
+            vec = json.load(fh)["vector"]
+        outs, viols = run_rules(pid, [vec], pid + "-replay")
+        if any(t.startswith(pid + ":") for v in viols for t in v["tags"]):
+            print("VIOLATION property=%s replay=%s" % (pid, replay))
+            return 1
+        log("replay: accepted on the current tree")
+        return 0
+    rng = random.Random(vlib.seed())
+    vecs, states, nstruct = rules_vectors(kinds, thorough, rng)
+    log("MC_Rules: %d structures of %s enumerated by TLC (translation order-independent on all), %d concrete vectors" % (nstruct, "/".join(kinds), len(vecs)))
+    byid = {v["id"]: v for v in vecs}
+    outs, viols = run_rules(pid, vecs, pid)
+    n = report_l0(pid, viols, lambda v: {"property": pid, "kind": "rules", "tags": v["tags"], "vector": byid.get(v["line"]["id"], v["line"]), "recorded": v["line"]})
+    nreq = sum(len(s["reqs"]) for o in outs for s in o["steps"])
+    ex = outs[len(outs) // 2]
+    cov = {"states": states, "transitions": states, "traces_validated_against_impl": len(outs),
+           "samples": [{"fn": ex["in"][0]["fn"], "seid": ex["seid"], "tree": ex["in"][0]["tree"], "leaves": ex["steps"][0]["reqs"][-1]["leaves"] if ex["steps"][0]["reqs"] else []}],
+           "structures": nstruct, "concrete_instances": len(vecs), "netlink_requests_decoded": nreq, "exhaustive": False,
+           "checker_cmd": "tlc MC_Rules.tla (INVARIANT OrderFree, RefSane) per kind; tlc Trace_Rules.tla"}
+    vlib.write_evidence(pid, "model_checking", cov, time.time() - t0, n, [
+        "RuleXlate.tla states the translation on octets (TS 29.244 IE layouts, gtp5g genl attribute numbers shared with the driver via go-gtp5gnl constants)",
+        "the real driver runs against a simulated gtp5g netlink endpoint; requests are decoded by the simulator's own attribute walker",
+        "TLC enumerates structure; values are boundary classes and seeded random octets chosen by the harness (concrete_instances)",
+        "measurement-period attribute and TTC/SPI/FL placeholders are outside the statement"])
+    return 1 if n else 0
+
+
+REGISTRY["C02"] = check_rules
+REGISTRY["C03"] = check_rules
+
+
+_check_c20_config = check_c20
+
+
+def check_c20_full(pid, replay=None):
+    """configuration part (Config.tla) + gtp5g version window against the simulated GET_VERSION"""
+    import random
+    import gen_rules
+    if replay:
+        with open(replay) as fh:
+            doc = json.load(fh)
+        if doc.get("kind") == "rules":
+            outs, viols = run_rules(pid, [doc["vector"]], pid + "-replay")
+            if any(t.startswith("C20:") for v in viols for t in v["tags"]):
+                print("VIOLATION property=%s replay=%s" % (pid, replay))
+                return 1
+            log("replay: accepted on the current tree")
+            return 0
+        return _check_c20_config(pid, replay)
+    rc = _check_c20_config(pid, None)
+    vecs = gen_rules.version_vectors(random.Random(vlib.seed()), 0)
+    byid = {v["id"]: v for v in vecs}
+    outs, viols = run_rules(pid, vecs, "c20ver")
+    n = report_l0(pid, viols, lambda v: {"property": pid, "kind": "rules", "tags": v["tags"], "vector": byid.get(v["line"]["id"], v["line"]), "recorded": v["line"]})
+    # extend the evidence written by the configuration part
+    p = os.path.join(vlib.VERIF, "evidence", pid + ".json")
+    with open(p) as fh:
+        ev = json.load(fh)
+    ev["coverage"]["version_strings_checked"] = len(vecs)
+    ev["coverage"]["traces_validated_against_impl"] += len(outs)
+    ev["coverage"].pop("not_covered_here", None)
+    ev["violations"] = ev.get("violations", 0) + n
+    with open(p, "w") as fh:
+        json.dump(ev, fh, indent=1)
+    return 1 if (rc or n) else 0
+
+
+REGISTRY["C20"] = check_c20_full
